@@ -53,14 +53,26 @@ class Codec:
             return self.checksum
         cands = {}
         for fn in (self.from_bytes, self.to_bytes):
-            for b in fn["body"]["blocks"]:
-                t = b["term"]
-                if b["cleanup"] or t["t"] != "call" or "fn" not in t["func"]:
-                    continue
-                fj = t["func"]["fn"]
-                tgt = self.prog.fns.get((fj.get("resolved") or fj)["path"])
-                if tgt is not None and tgt.get("output", {}).get("s") == "u8" and len(tgt.get("inputs", [])) == 1 and tgt["inputs"][0].get("s", "").endswith("[u8]") and "impl" not in tgt:
-                    cands.setdefault(tgt["path"], set()).add(fn["path"])
+            # workspace functions reachable from fn through direct calls (helpers, stages, closures), to a small depth
+            seen = {fn["path"]}
+            work = [(fn, 0)]
+            while work:
+                g, depth = work.pop()
+                bodies = [g["body"]] + [c["body"] for c in self.prog.closures_of(g["path"])]
+                for body in bodies:
+                    for b in body["blocks"]:
+                        t = b["term"]
+                        if b["cleanup"] or t["t"] != "call" or "fn" not in t["func"]:
+                            continue
+                        fj = t["func"]["fn"]
+                        tgt = self.prog.fns.get((fj.get("resolved") or fj)["path"])
+                        if tgt is None:
+                            continue
+                        if tgt.get("output", {}).get("s") == "u8" and len(tgt.get("inputs", [])) == 1 and tgt["inputs"][0].get("s", "").endswith("[u8]") and "impl" not in tgt:
+                            cands.setdefault(tgt["path"], set()).add(fn["path"])
+                        if tgt["path"] not in seen and depth < 4:
+                            seen.add(tgt["path"])
+                            work.append((tgt, depth + 1))
         both = [p for p, s in cands.items() if len(s) == 2]
         if len(both) != 1:
             raise Unsupported("cannot identify the checksum routine shared by from_bytes and to_bytes (%s)" % list(cands))
@@ -654,6 +666,7 @@ def to_bytes_rules(chk, cx, rule):
     ev = Evaluator(cx.prog, cx.models, no_inline=lambda f: f["path"] in ni)
     paths = ev.run(fn, setup=lambda st: st.aux.__setitem__("watch_vec", True))
     nret = 0
+    n_value = 0
     for p in paths:
         if p.kind == "panic":
             last = norm(p.decisions[-1][0]) if p.decisions else None
@@ -685,9 +698,14 @@ def to_bytes_rules(chk, cx, rule):
             elif first[1] == "push" and norm(first[3][0]) == norm(C):
                 pay_t = tg
         okt = out_t is not None and pay_t is not None and len(targets) == 2 and len(targets[pay_t]) == 1
-        chk.ob(rule, "exactly two vectors are built: payload ++ [checksum] and the output starting with ':'", okt, key="to_bytes:vectors", where=where, detail=str({str(k): [e[1] for e in v] for k, v in targets.items()}))
         if not okt:
+            # not the push-loop shape: judge the returned value itself (iterator pipelines, loop summaries)
+            okv, whyv = to_bytes_value(p.value, P, C)
+            chk.ob(rule, "to_bytes returns ':' followed, for each byte b of payload ++ [checksum] in order, by HEX[b >> 4], HEX[b & 15] from the table \"0123456789ABCDEF\"", okv,
+                   key="to_bytes:value", where=where, detail=whyv)
+            n_value += 1 if okv else 0
             continue
+        chk.ob(rule, "exactly two vectors are built: payload ++ [checksum] and the output starting with ':'", okt, key="to_bytes:vectors", where=where, detail=str({str(k): [e[1] for e in v] for k, v in targets.items()}))
         it_want = norm(("iter", "slice", ("seq", (("splice", P), ("elem", C)))))
         outs = targets[out_t][1:]
         # flatten what is appended after ':' into single elements (push x -> [x]; extend_from_slice [a, b] -> [a, b])
@@ -702,6 +720,12 @@ def to_bytes_rules(chk, cx, rule):
                 elems.extend(mk_int(b, "u8") for b in e[5][0][1])
             else:
                 okops = False
+        if not okops:
+            okv, whyv = to_bytes_value(p.value, P, C)
+            chk.ob(rule, "to_bytes returns ':' followed, for each byte b of payload ++ [checksum] in order, by HEX[b >> 4], HEX[b & 15] from the table \"0123456789ABCDEF\"", okv,
+                   key="to_bytes:value", where=where, detail=whyv)
+            n_value += 1 if okv else 0
+            continue
         okpairs = okops and len(elems) % 2 == 0
         chk.ob(rule, "after ':' the output only receives appended bytes, two per loop iteration", okpairs, key="to_bytes:pairs", where=where, detail=str([e[1] for e in outs]))
         for i in range(0, len(elems) - 1, 2):
@@ -714,10 +738,10 @@ def to_bytes_rules(chk, cx, rule):
         # the returned vector is the output vector
         fr = p.state.frames.get(out_t[1], {})
         chk.ob(rule, "to_bytes returns the output vector", out_t[0] == "loc" and norm(fr.get(out_t[2])) == norm(p.value), key="to_bytes:return", where=where)
-    chk.floor(rule, "to_bytes returning paths (0 / >=1 loop iterations)", nret, 2)
+    chk.floor(rule, "to_bytes returning paths (0 / >=1 loop iterations, or one pipeline)", nret, 1 if n_value else 2)
     # with newline
     fn2 = cx.to_bytes_nl
-    ev2 = Evaluator(cx.prog, cx.models, no_inline=lambda f: f["path"] == cx.to_bytes["path"])
+    ev2 = Evaluator(cx.prog, cx.models, no_inline=lambda f: f["path"] in (cx.to_bytes["path"], cx.payload["path"], ck["path"]))
     paths = ev2.run(fn2)
     for p in paths:
         if p.kind == "panic":
@@ -728,7 +752,38 @@ def to_bytes_rules(chk, cx, rule):
         v = p.value
         ok = len(calls) == 1 and v[0] == "seq" and len(v[1]) == 3 and v[1][0] == ("splice", calls[0][3]) and [x[1] for x in v[1][1:]] == [mk_int(0x0D, "u8"), mk_int(0x0A, "u8")] \
             and calls[0][2][0][0] == "ref" and calls[0][2][0][1][:2] == ("heap", "*self")
+        if not ok and not calls and v[0] == "seq" and len(v[1]) >= 3 and [x for x in v[1][-2:]] == [("elem", mk_int(0x0D, "u8")), ("elem", mk_int(0x0A, "u8"))]:
+            # both encoders share a helper instead of one calling the other: the value must be the to_bytes value plus CRLF
+            pcs = [e for e in p.trace if e[0] == "call" and e[1] == cx.payload["name"]]
+            ccs = [e for e in p.trace if e[0] == "call" and e[1] == ck["name"]]
+            if len(pcs) == 1 and len(ccs) == 1 and ccs[0][6][0] is not None and norm(ccs[0][6][0]) == norm(pcs[0][3]):
+                ok, _why = to_bytes_value(("seq", v[1][:-2]), pcs[0][3], ccs[0][3])
         chk.ob(rule, "to_bytes_with_newline = to_bytes(self) ++ \"\\r\\n\"", ok, key="to_bytes_nl:shape", where=loc(fn2["span"]), detail=fmt_term(v)[:100])
+
+
+def to_bytes_value(v, P, C):
+    """v == seq[':'] ++ (HEX[hi(b)], HEX[lo(b)]) for every item b of an iterator over payload ++ [checksum]"""
+    v = norm(v)
+    if v[0] != "seq" or not v[1] or v[1][0] != ("elem", mk_int(0x3A, "u8")):
+        return False, "the result %s does not start with ':'" % fmt_term(v)[:80]
+    rest = v[1][1:]
+    if len(rest) != 1 or rest[0][0] != "mapped_all" or len(rest[0][1]) != 2:
+        return False, "after ':' the result is not one pair of digits per byte (%s)" % fmt_term(v)[:120]
+    (hk, hi), (lk, lo) = rest[0][1]
+    src = rest[0][2]
+    okh, item_h, why_h = hex_digit(hi, "hi")
+    okl, item_l, why_l = hex_digit(lo, "lo")
+    if not (okh and okl):
+        return False, why_h or why_l
+    if item_h != item_l:
+        return False, "the two digits come from different bytes"
+    wants = [norm(("iter", "slice", ("seq", (("splice", P), ("elem", C))))),
+             norm(("iter", "chain", ("iter", "slice", P), ("iter", "once", C)))]
+    srcn = norm(src) if src is not None else None
+    it_of = item_h[1][1] if (item_h[0] == "proj" and item_h[1][0] == "item") else None
+    if srcn not in wants or norm(it_of) != srcn:
+        return False, "the bytes encoded are the items of %s, not of payload ++ [checksum]" % (fmt_term(src)[:80] if src else "?")
+    return True, None
 
 
 def hex_digit(t, which):
